@@ -1,12 +1,15 @@
 // unit `content_codec` -- decoding of block CONTENT and of the ITEM arm of `Update::decode_block`.  Serves C10 and C09.
 //
 //   yrs/src/block.rs      ItemContent::decode (WHOLE body: the dispatch on `ref_num & 0b1111` and all ten arms) + its four block
-//                         arms lifted on their own (R18): content_decode_json / _type / _any / _doc;  ItemContent::len,
-//                         ItemContent::is_countable, ItemFlags::new (whole);  Item::new (PREFIX: everything up to and including the
-//                         `Box::new(Item { .. })`, i.e. the `if len == 0 { return None; }` guard and the field-by-field construction)
+//                         arms lifted on their own (R18): content_decode_json / _any (behind `let len = ..`, `len` a PARAMETER),
+//                         content_decode_type / _doc;  ItemContent::len, ItemContent::is_countable, ItemFlags::new (whole);
+//                         Item::new (PREFIX: everything up to and including `let mut item = Box::new(Item { .. });`, i.e. the
+//                         `if len == 0 { return None; }` guard and the field-by-field construction);  ClientID::decode (whole)
 //   yrs/src/types/mod.rs  <TypeRef as Decode>::decode (whole; inherent impl, static dispatch)
 //   yrs/src/doc.rs        <Options as Decode>::decode (whole body as a region; the in-memory option-parsing loop is DROPPED, see EXCLUDED)
 //   yrs/src/update.rs     Update::decode_block (WHOLE body, all three arms) + its ITEM arm lifted on its own (decode_block_item)
+//   yrs/src/updates/decoder.rs  DecoderV1::{read_id, read_left_id, read_right_id, read_parent_info, read_type_ref} (real bodies
+//                         against the byte-level clauses of the decoder model, `trait V1Reads`)
 //
 // DECODER MODEL.  `trait Decoder: Read` is ABSTRACT and carries TWO ghost views of the unread input:
 //   rest(): Seq<u8>   the unread bytes of the main stream (units lib0 / dec_comp / upd_dec): `wf`, `suffix_of`, progress, budget (C10)
@@ -18,8 +21,8 @@
 //       (v1: own var-int / tag byte; v2: `Any::decode(&mut self.cursor)`, `Read::read_buf`), the others only for a v1 decoder
 //       (`Self::v1()`: v2 reads them from separate RLE columns; nothing is promised there);
 //   (L) its PAIRING LAW: if the unread tokens start with the token the matching `write_*` produces, the read returns that
-//       token's payload and consumes exactly that token (`paired` / `paired_v`).  Nothing is promised when the head token is of
-//       another kind (a v1 decoder would read garbage, a v2 decoder another column).
+//       token's payload and consumes exactly that token (`paired`).  Nothing is promised when the head token is of another kind
+//       (a v1 decoder would read garbage, a v2 decoder another column).
 // The pairing laws are THE ASSUMPTION of the round-trip statements (R): they hold for every Encoder / Decoder pair that
 // satisfies them, which is how the independence from v1 / v2 is expressed.  List (method ~ token):
 //   read_info ~ Info(u8) | read_left_id ~ LeftId(ID) | read_right_id ~ RightId(ID) | read_parent_info ~ ParentInfo(bool) |
@@ -28,68 +31,87 @@
 //   of decode_block is covered at byte level only; unit upd_dec lifts and proves that arm.)
 // For lib0 v1 the laws are instances of `dec(enc(v) + tail) == Some((v, |enc(v)|))` (units lib0 / lib0_common: law_dec_enc,
 // lemma_dec_enc_buf) with toks() = the token parse of rest(); for v2 of the column round trips of unit lib0_v2.
+// KNOWN LIMIT of one law (F-CC-3, measured on the real crate, repro `jsonv1`): `read_json ~ Json(any)` holds for lib0 v1 only on
+// values JSON can represent -- EncoderV1::write_json is `Any::to_json` (serde_json), so Any::Undefined arrives as Null (a null
+// FORMAT value then means "remove the attribute"), Any::Buffer as an array of numbers, a non-finite Number as Null.  Inherent in
+// the v1 format (Yjs: JSON.stringify); v2 writes Embed / Format values with write_any and is exact.
 //
 // SPECIFICATION (QUOTED from units/header/unit.rs, where `lemma_roundtrip: parse_block(grammar(h) + rest) == Some((Item(decoded_of(h)),
 // rest))` is proved for the grammar that `Item::encode` / `ItemSlice::encode` / `ItemContent::encode` are proved to write):
-//   Tok, Content, Parent, Decoded, BlockDesc, rd_*, rd_strings, rd_anys, parse_type_ref, parse_content, parse_opt_left / _right /
-//   _str, parse_parent, parse_item, parse_block, content_ref, content_toks, content_count, content_wf, lemma_parse_content (+ its
-//   helpers).  Differences: payloads are VIEWS here (`Str` = Seq<char>, the view of &str / String / Arc<str> / SplittableString /
-//   Uuid; `TypeRefV` = the view of the exec enum TypeRef), and `utf16_len` is defined through `str_units` (the uninterpreted
-//   spec of `SplittableString::len`) with the REAL `as u32` cast of `ItemContent::len`.
+//   Tok, Content, Parent, Decoded, rd_*, rd_strings, rd_anys, parse_type_ref, parse_content, parse_opt_left / _right / _str,
+//   parse_parent, parse_item, content_ref, content_toks, content_count, content_wf, lemma_parse_content (+ its helpers).
+//   Differences: payloads are VIEWS here (`Str` = Seq<char>, the view of &str / String / Arc<str> / SplittableString / Uuid;
+//   `TypeRefV` = the view of the exec enum TypeRef), and `utf16_len` is defined through `str_units` (the uninterpreted spec of
+//   `SplittableString::len`) with the REAL `as u32` cast of `ItemContent::len`.
 //
 // CONTRACTS
-//  ItemContent::decode(decoder, ref_num)  [label content_decode; arms content_decode_json / _type / _any / _doc]
+//  ItemContent::decode(decoder, ref_num)  [content_decode; arms content_decode_json / _any / _type / _doc]
 //   (T) TOTAL   Ok or Err for every wf decoder and every ref_num: no panic / overflow, both loops terminate (JSON: range loop;
 //               Any: `decreases len - i`).  BUDGET: both `try_reserve` calls go through `vx_budget(decoder).for_vec(..).try_reserve(n)`
 //               (SUB, logged) whose PRECONDITION is dec_comp's `alloc_budget_ok`: n <= unread bytes + 1024 (the code asks for
 //               `.min(1024)`); everything else grows by ONE element per loop round, and a round consumes >= 1 byte of rest()
-//               (Any: every decoder; JSON: v1 decoders -- see OBSERVATION O-CC-2).  SIZE: Ok ==> content_elems(result) <= bytes
-//               consumed (JSON under v1()), Binary: |buf| < bytes consumed.
+//               (Any: every decoder; JSON: v1 decoders -- F-CC-2).  SIZE: Ok ==> content_elems(result) <= bytes consumed (JSON under
+//               v1()), content_elems(result) <= u32::MAX, Binary: |buf| < bytes consumed.
 //   (P) SUFFIX  `suffix_of(old.rest(), final.rest())`, wf kept.
-//   (V) VALUE   `content_ok`: parse_content(ref_num, old.toks()) == Some((c, t1)) ==> Ok(r), content_is(r, c), final.toks() == t1.
-//               parse_content IS the wire grammar: Deleted = Len;  JSON = Len n, then EXACTLY n String tokens (rd_strings(t, n):
-//               the repaired clause -- the JSON arm additionally states `json_exactly_len`: the result has exactly `len` strings and
-//               the loop consumed exactly `len` String tokens);  Binary = Buf;  String = String;  Embed = Json;  Format = Key, Json;
-//               Type = parse_type_ref;  Any = Len n, then exactly n Any tokens;  Doc = String (guid), Any (options);
-//               every other `ref_num & 0b1111` (0, 10..15) => Err(UnexpectedValue), nothing consumed (`unknown_ref_is_error`).
-//   (R) ROUND TRIP  `content_round_trip`: for every content c with content_wf(c) (element counts fit the u32 length prefix) and
-//               every `rest`: old.toks() == content_toks(c) + rest && ref_num & 0x0f == content_ref(c) ==> Ok(r), content_is(r, c),
-//               final.toks() == rest.  (content_toks(c) is what unit header proves `ItemContent::encode` / `encode_slice` to append.)
+//   (V) VALUE   `content_ok`: parse_content(ref_num, old.toks()) == Some((c, t1)) ==> Ok(r), content_is(r, c), final.toks() == t1
+//               -- or, JSON / Any arms only, Err because the allocator refused a budgeted reservation (`out_of_memory`: this Verus
+//               gives the error conversion of `?` no specification, so the refusal is recorded in the uninterpreted
+//               `vx_alloc_refused(n)`, n <= 1024, by the try_reserve stand-in).
+//               parse_content IS the wire grammar: Deleted = Len;  JSON = Len n, then EXACTLY n String tokens (rd_strings(t, n));
+//               Binary = Buf;  String = String;  Embed = Json;  Format = Key, Json;  Type = parse_type_ref;  Any = Len n, then exactly
+//               n Any tokens;  Doc = String (guid), Any (options).  The lifted JSON / Any arms state the count on its own,
+//               independent of the pairing laws: `json_exactly_len`: Ok(r) ==> r is JSON with EXACTLY `len` strings (the clause
+//               repaired by 492046c, F40: `0..len + 1`, `1..len`, `while remaining >= 0` all fail it), `any_exactly_len` likewise.
+//               Every other `ref_num & 0b1111` (0, 10..15) => Err(UnexpectedValue), nothing consumed (`unknown_ref_is_error`);
+//               Ok(r) ==> the variant of r is the one the tag names.
+//   (R) ROUND TRIP  `theorem_content_round_trip` ((V) + header's lemma_parse_content): for every call that satisfies (V), every
+//               content c with content_wf(c) (element counts fit the u32 length prefix) and every `rest`:
+//               old.toks() == content_toks(c) + rest && ref_num & 0x0f == content_ref(c) ==> Ok(r), content_is(r, c), final.toks() ==
+//               rest (or out_of_memory).  content_toks(c) is what unit header proves `ItemContent::encode` / `encode_slice` to append.
 //  TypeRef::decode  [typeref_decode]  (T)(P) as above; (V) parse_type_ref(old.toks()) == Some((t, t1)) ==> Ok(r), r.view() == t,
 //               final.toks() == t1; kinds outside {0..6, 9, 15} (7 = weak link needs cfg(feature = "weak")) => Err.
-//  Options::decode  [options_decode]  (T)(P); (V) String g, Any o at the head ==> Ok(r), r.guid@ == g, should_load == false, both consumed.
-//  Item::new (prefix)  [item_new]  None IFF content.len(Utf16) == 0; Some(item): every field as passed, len == content.len(Utf16) >= 1.
+//  Options::decode  [options_decode]  (T)(P), Ok ==> progress; (V) String g, Any o at the head ==> Ok(r), r.guid@ == g, both consumed.
+//  Item::new (prefix)  [item_new]  `none_iff_empty`: None IFF content.len(Utf16) == 0; Some(item): every field as passed, redone None,
+//               COUNTABLE flag per content kind, len == content.len(Utf16) >= 1.
 //  ItemContent::len  [content_len]  Deleted: its len; String: `str_units(s, kind) as u32`; Any / JSON: `v.len() as u32`; else 1.
 //  decode_block_item(id, decoder, info)  [decode_block_item] = the `info =>` arm of Update::decode_block
 //   (T)(P) as above;  (V) `item_ok`: parse_item(info, old.toks()) == Some((d, t1)) ==> Ok(r), final.toks() == t1, and
 //               r is None IFF content_count(d.content) == 0, else r == Some(Block::Item(it)) with item_is(it, id, d): id as given,
-//               len == content_count(d.content), origin / right_origin / parent / parent_sub / content == d's, left == right ==
-//               redone == None, COUNTABLE flag per content kind.  parse_item is the flag discipline of unit header's grammar:
+//               len == content_count(d.content) >= 1, origin / right_origin / parent / parent_sub / content == d's, left == right ==
+//               redone == None, COUNTABLE flag (or out_of_memory).  parse_item is the flag discipline of unit header's grammar:
 //                 "parent + parent_sub, written iff neither origin nor right origin is present" (parent_part), origin iff
 //                 HAS_ORIGIN, right origin iff HAS_RIGHT_ORIGIN (in this order), parent = ParentInfo(true) String | ParentInfo(false)
-//                 LeftId, parent_sub iff cant_copy && HAS_PARENT_SUB, then the content.
+//                 LeftId, parent_sub iff cant_copy && HAS_PARENT_SUB, then the content with the tag `info & 0b1111`.
 //   (U) the clause unit upd_dec ASSUMES for its bodiless `decode_block`, same text:
 //                 `res is Ok && res->Ok_0 is Some ==> block_of(res->Ok_0->Some_0, id)`   (block_of: client, clock == id's, len >= 1)
 //  Update::decode_block(id, decoder)  [decode_block]  EXACTLY the four clauses of upd_dec's bodiless declaration (wf, suffix_of,
-//               `Self::v1() && res is Ok ==> progress`, block_of), PROVED here from the real body -- plus the token clause
-//               `block_ok`: toks start with Info(i), i not in {0, 10}, parse_item(i, ..) == Some((d, t1)) ==> as item_ok.
+//               `Self::v1() && res is Ok ==> progress`, block_of), PROVED here from the real body (all three arms) -- plus the token
+//               clause `block_ok`: toks start with Info(i), i not in {0, 10}, parse_item(i, ..) == Some((d, t1)) ==> as item_ok.
+//               So upd_dec's bodiless method can be turned into a cross-checked stub of this function.
 //
-// FINDING F-CC-1 (C10; found while writing this unit, REPAIRED in /repo e4c67f4; now the discharged obligation
-//   content_decode_any::pre / content_decode::pre, canary any_min_1024_dropped): the Any arm did `values.try_reserve(len)?` with
-//   len = untrusted `read_len()? as usize` (492046c had capped the JSON arm only).  Update::decode_v1(&[1,1,1,0,0x08,1,1,0x61,
-//   0x80,0xC2,0xD7,0x2F]) (12 bytes, ContentAny len 100_000_000, no values) returned Err(EndOfBuffer) after reserving 2.35 GB
-//   (VmPeak 3 MB -> 2.35 GB); len 0xFFFFFFFF (13 bytes) -> Err(NotEnoughMemory) after a 103 GB request.  repro/main.rs.
-// OBSERVATIONS (no clause of this unit fails; details in the final report of the proving session)
-//   O-CC-2  v2 only, same root as the OPEN finding K5 (run-length coded columns cost no input bytes): the JSON arm reads `len`
-//           from the len column and every string from the string column (lengths RLE-coded), so `len` empty strings cost
-//           nothing.  The SIZE clause for JSON is therefore stated (and proved) under `D::v1()` only -- for v2 it is false.
+// FINDINGS
+//   F-CC-1 (C10; found while writing this unit, REPAIRED in /repo e4c67f4; now the discharged obligations content_decode_any::pre /
+//          content_decode::pre, canary any_min_1024_dropped): the Any arm did `values.try_reserve(len)?` with len = untrusted
+//          `read_len()? as usize` (492046c had capped the JSON arm only).  Update::decode_v1(&[1,1,1,0,0x08,1,1,0x61,0x80,0xC2,0xD7,
+//          0x2F]) (12 bytes, ContentAny len 100_000_000, no values) returned Err(EndOfBuffer) after reserving 2.35 GB (VmPeak 3 MB
+//          -> 2.35 GB); len 0xFFFFFFFF (13 bytes) -> Err(NotEnoughMemory) after a 103 GB request.  repro `any N`.
+//   F-CC-2 (C10, v2 only, OPEN: second instance of the root cause of K5 -- run-length coded columns cost no input bytes): the JSON
+//          arm reads `len` from the len column and every string from the string column (lengths RLE-coded), so N empty strings
+//          cost nothing.  Update::decode_v2 of 29 bytes (repro `json2 50000000`) -> Ok, 1.17 GB peak RSS, 0.7 s; N = 2 * 10^8 -> 4.7 GB;
+//          N = 2^32 - 1 under `ulimit -v 3000000` -> SIGABRT in RawVec::grow_one <- ItemContent::decode.  The SIZE clause for JSON is
+//          therefore stated (and proved) under `D::v1()`; for column decoders it is false.  The Any arm is fine in both versions.
+//   F-CC-3 (C09, v1 only, format-inherent): see KNOWN LIMIT above.
+// OBSERVATIONS (no clause fails)
 //   O-CC-3  `read_len` / `read_type_ref` of DecoderV2 truncate (`read_u64()? as u32`, `as u8`): lenient, not a totality issue.
 //   O-CC-4  `ItemContent::len`: `str.len(kind) as u32`, `v.len() as u32` truncate for >= 2^32 units / elements (needs a >= 4 GiB
-//           input; decode cannot produce such Any / JSON vectors: their length is the u32 read from the wire).
+//           input; decode cannot produce such Any / JSON vectors: `content_elems <= u32::MAX` is proved).  A string of exactly
+//           k * 2^32 UTF-16 units would count as empty and be dropped by Item::new.
+//   O-CC-5  Options::decode ignores an options value that is not a map and unknown keys (lenient, by design).
 //
 // STAND-INS (everything else is extracted from /repo on every run)
-//   ClientID        opaque `ClientID(pub u64)` (equality only), as in units header / upd_dec.
-//   ArcStr          `Arc<str>` (SUB, logged): opaque, view Seq<char>;  Uuid = ArcStr (real: newtype of Arc<str>).
+//   ClientID        `ClientID(pub u64)` holding the yjs value (units dec_comp / upd_dec); `ClientID::decode` is the REAL body, `new`
+//                   carries the real body's debug_assert (53 bit) as precondition.
+//   ArcStr          `Arc<str>` (SUB, logged): opaque, view Seq<char>, trusted `clone`;  Uuid = ArcStr (real: newtype of Arc<str>).
 //   SplittableString  opaque, view Seq<char>; `len(kind)` TRUSTED with the uninterpreted spec `str_units`.
 //   Any             the REAL enum (any.rs) with the Arc payloads spelled as opaque types (Bytes, AnyArr, AnyMap), as in unit dec_comp;
 //                   values are only produced by read_any / read_json and matched once (`if let Any::Map(opts)` in Options::decode).
@@ -100,20 +122,21 @@
 //                   unspecified);  Doc opaque with the spec accessor `options()`;  Doc::with_options TRUSTED (`r.options() == options`).
 //   Update          the two functions are extracted into free functions (no `Self` use in their bodies).
 // TRUSTED (module vx_trusted; each with its std / yrs-documented contract at the declaration)
-//   VxBudget::try_reserve (std Vec::try_reserve: capacity only; PRECONDITION alloc_budget_ok = the obligation), vx_into impls for
-//   &str -> ArcStr / SplittableString / (std From) and the VERIFIED identity / Box::new impls for Any, vx_str_to_owned /
-//   vx_bytes_to_owned (`ToOwned`), SplittableString::len, Branch::new, Options::default, Doc::with_options; + units/lib0_common/base.rs.
+//   VxBudget::try_reserve (std Vec::try_reserve: capacity only; PRECONDITION alloc_budget_ok = the obligation; Err ==> vx_alloc_refused),
+//   VxInto impls &str -> ArcStr / SplittableString (the Any -> Any / Box<Any> impls are VERIFIED), VxToOwned for str / [u8],
+//   ArcStr::clone, SplittableString::len, vx_branch_new, vx_options_default, Doc::with_options; + what units/lib0_common/base.rs trusts.
 // REWRITES (all logged): R9 R10; SUB `Arc<str>` -> ArcStr, `.into()` -> `.vx_into()` (local trait, target type inferred as in the
 //   real code), `.to_owned()` -> `.vx_to_owned()`, `buf.try_reserve` / `values.try_reserve` -> `vx_budget(decoder).for_vec(&..).try_reserve`,
 //   `decoder.read_buf()` -> `Decoder::read_buf(decoder)` (lib0_common's blanket ReadExt::read_buf would be ambiguous),
-//   INLINE `Block::from(item)` -> `Block::Item(item)` (body of `impl From<Box<Item>> for Block` checked on every run),
-//   `Self::decode_block` is not called here.  R18 regions as listed; @drop of the option-parsing `for` in Options::decode.
+//   INLINE `Block::from(item)` -> `Block::Item(item)` (body of `impl From<Box<Item>> for Block` checked on every run), field
+//   visibility of ItemFlags.0 / DecoderV1.cursor / ITEM_FLAG_COUNTABLE.  R18 regions as listed; @drop of the option-parsing `for`.
 // EXCLUDED: the tail of Item::new after the `Box::new` (`ItemPtr::from(&mut item)`, `branch.item = Some(item_ptr)`, `branch.name =
 //   root_name`: raw back-pointer of a nested type; does not touch id / len / origins / parent / content kind);  the loop of
 //   Options::decode that copies known keys of the decoded map into option fields (in-memory, no decoder access, bounded by the map
-//   decoded under dec_comp's budget; lossy by design: unknown keys are ignored, so Doc round-trips up to `as_any`);  Any::from_json /
-//   Any::decode themselves (dec_comp);  the real DecoderV1 / DecoderV2 bodies (units lib0, lib0_v2, dec_comp, upd_dec);  byte sizes
-//   of strings / Any values (element counts only, as in dec_comp);  TypeRef::WeakLink (cfg(feature = "weak")).
+//   decoded under dec_comp's budget; lossy by design, so Doc round-trips up to `as_any`: (V) for Doc states the guid and the
+//   consumption only);  Any::from_json / Any::decode themselves (dec_comp);  the real DecoderV2 bodies and the v1 bodies listed at
+//   `trait V1Reads` (units lib0, lib0_v2, dec_comp, upd_dec);  byte sizes of strings / Any values (element counts only, as in
+//   dec_comp);  TypeRef::WeakLink (cfg(feature = "weak"));  what `Update::integrate` does with a decoded item.
 #![feature(allocator_api)]
 #![allow(unused_imports, unused_variables, unused_mut, dead_code, unused_parens, unused_braces, unused_assignments)]
 use vstd::prelude::*;
@@ -146,6 +169,45 @@ verus! {
 // ---------------------------------------------------------------------------------------------
 #[derive(PartialEq, Eq, Structural, Clone, Copy)]
 pub struct ClientID(pub u64);
+
+/// `value & ClientID::MASK == 0`, i.e. the value fits into 53 bits (text of units/upd_dec/unit.rs)
+pub open spec fn client_id_53bit(value: u64) -> bool {
+    value < 0x20_0000_0000_0000
+}
+
+pub proof fn lemma_client_id_mask(value: u64)
+    ensures
+        client_id_53bit(value) <==> value & (u64::MAX << 53) == 0,
+{
+    assert(value < 0x20_0000_0000_0000 <==> value & (u64::MAX << 53) == 0) by(bit_vector);
+}
+
+impl ClientID {
+    /*@extract yrs/src/block.rs | impl ClientID | const MASK @*/
+
+    // the REAL body: checks the range of a value read from untrusted input
+    /*@extract yrs/src/block.rs | impl ClientID | fn decode | label=client_id_decode | rules=SUB(from=crate::encoding::read::Error;;to=Error)
+    @ret r
+    @sig
+        ensures
+            match r {
+                Ok(c) => client_id_53bit(value) && c == ClientID(value),
+                Err(_) => !client_id_53bit(value),
+            },
+    @before 1 `stmt:if`
+        proof { lemma_client_id_mask(value); }
+    @*/
+
+    /// STAND-IN for `ClientID::new`; precondition = the `debug_assert!(value & Self::MASK == 0)` of the real body (R9)
+    pub fn new(value: u64) -> (r: ClientID)
+        requires
+            client_id_53bit(value),
+        ensures
+            r.0 == value,
+    {
+        ClientID(value)
+    }
+}
 
 /// the view of every string-like value (&str, String, Arc<str>, SplittableString, Uuid)
 pub type Str = Seq<char>;
@@ -350,6 +412,10 @@ pub mod vx_trusted {
         pub remaining: Ghost<nat>,
     }
 
+    /// "the allocator refused a request for n more elements" (uninterpreted: nothing is known about it unless a
+    /// `try_reserve` has just failed)
+    pub uninterp spec fn vx_alloc_refused(n: usize) -> bool;
+
     pub fn vx_budget<R: Read>(r: &R) -> (b: VxBudget)
         ensures
             b.remaining@ == r.rest().len(),
@@ -369,10 +435,15 @@ pub mod vx_trusted {
         /// ... If the capacity overflows, or the allocator reports a failure, then an error is returned."  Only the CAPACITY
         /// changes: the collection is not even borrowed mutably by the stand-in; the result is unspecified (Ok or Err).
         /// PRECONDITION: the request is within the budget -- the obligation of the caller, not an assumption.
+        /// A failure is recorded in the uninterpreted `vx_alloc_refused(n)` ("the allocator refused a request for n elements"),
+        /// because this Verus gives no specification to the error conversion of `?`: the contracts say "no error on a
+        /// well-formed content UNLESS the allocator refused a (budgeted) request" through it.
         #[verifier::external_body]
         pub fn try_reserve(self, n: usize) -> (r: Result<(), TryReserveErrorStandIn>)
             requires
                 alloc_budget_ok(n, self.remaining@),
+            ensures
+                r is Err ==> vx_alloc_refused(n),
         {
             unimplemented!()
         }
@@ -1093,8 +1164,9 @@ pub open spec fn item_is(it: Item, id: ID, d: Decoded) -> bool {
 pub proof fn lemma_content_count(c: ItemContent, v: Content)
     requires
         content_is(c, v),
+        content_elems(c) <= u32::MAX,
     ensures
-        ic_len(c, OffsetKind::Utf16) as int == content_count(v) || (c is Any && c->Any_0@.len() > u32::MAX) || (c is JSON && c->JSON_0@.len() > u32::MAX),
+        ic_len(c, OffsetKind::Utf16) as int == content_count(v),
 {
     match c {
         ItemContent::JSON(s) => { assert(strs_view(s@).len() == s@.len()); },
@@ -1301,7 +1373,7 @@ pub open spec fn known_content_ref(k: u8) -> bool {
 
 /// the only error a well-formed content may still produce: `try_reserve` reported an allocation failure (JSON / Any arms)
 pub open spec fn out_of_memory<T>(res: Result<T, Error>, info: u8) -> bool {
-    res is Err && res->Err_0 is NotEnoughMemory && (info & 0x0f == 2 || info & 0x0f == 8)
+    res is Err && (info & 0x0f == 2 || info & 0x0f == 8) && exists|n: usize| n <= ALLOC_SLACK && #[trigger] vx_alloc_refused(n)
 }
 
 /// (V) of ItemContent::decode: the decoded content is exactly what the arm's wire grammar says
@@ -1329,7 +1401,8 @@ pub open spec fn any_link(info: u8, t0: Seq<Tok>, ta: Seq<Tok>, n: nat) -> bool 
         && parse_content(info, t0) == Some((Content::Any(rd_anys(ta, n)->Some_0.0), rd_anys(ta, n)->Some_0.1))
 }
 
-pub proof fn lemma_content_round_trip(info: u8, t0: Seq<Tok>, res: Result<ItemContent, Error>, t1: Seq<Tok>)
+/// (R) ROUND TRIP of ItemContent::decode, for EVERY call that satisfies its contract clause (V)
+pub proof fn theorem_content_round_trip(info: u8, t0: Seq<Tok>, res: Result<ItemContent, Error>, t1: Seq<Tok>)
     requires
         content_ok(info, t0, res, t1),
     ensures
@@ -1448,6 +1521,77 @@ pub proof fn lemma_strs_view_push(v: Seq<String>, s: String)
 pub open spec fn options_ok(t0: Seq<Tok>, res: Result<Options, Error>, t1: Seq<Tok>) -> bool {
     rd_string(t0) is Some && rd_any(rd_string(t0)->Some_0.1) is Some ==>
         res is Ok && res->Ok_0.guid@ == rd_string(t0)->Some_0.0 && t1 == rd_any(rd_string(t0)->Some_0.1)->Some_0.1
+}
+
+
+/// an error on well-formed tokens is only possible if the allocator refused a budgeted (<= 1024 elements) reservation
+pub open spec fn alloc_refused() -> bool {
+    exists|n: usize| n <= ALLOC_SLACK && #[trigger] vx_alloc_refused(n)
+}
+
+// ---- what a block is for unit upd_dec (QUOTED from units/upd_dec/unit.rs: BlockView, Block::bv, spec_client, block_of) -------
+pub enum Kind { Item, GC, Skip }
+
+pub struct BlockView {
+    pub clock: int,
+    pub len: int,
+    pub kind: Kind,
+}
+
+impl Block {
+    pub open spec fn bv(&self) -> BlockView {
+        match self {
+            Block::Item(x) => BlockView { clock: x.id.clock as int, len: x.len as int, kind: Kind::Item },
+            Block::GC(r) => BlockView { clock: r.clock as int, len: r.len as int, kind: Kind::GC },
+            Block::Skip(r) => BlockView { clock: r.clock as int, len: r.len as int, kind: Kind::Skip },
+        }
+    }
+
+    pub open spec fn spec_client(&self) -> ClientID {
+        match self {
+            Block::Item(x) => x.id.client,
+            Block::GC(r) => r.client,
+            Block::Skip(r) => r.client,
+        }
+    }
+}
+
+/// a block made for `id`: it carries the id it was given and is NOT EMPTY (Item, GC and Skip alike)
+pub open spec fn block_of(b: Block, id: ID) -> bool {
+    &&& b.spec_client() == id.client
+    &&& b.bv().clock == id.clock
+    &&& b.bv().len >= 1
+}
+
+/// (V) of the item arm: the fields are read under exactly the flag combinations of unit header's grammar (`parse_item`), the
+/// content by ItemContent::decode, and `Item::new` yields NO block iff the content is empty
+pub open spec fn item_ok(id: ID, info: u8, t0: Seq<Tok>, res: Result<Option<Block>, Error>, t1: Seq<Tok>) -> bool {
+    parse_item(info, t0) is Some ==> out_of_memory(res, info) || {
+        let d = parse_item(info, t0)->Some_0.0;
+        &&& res is Ok
+        &&& t1 == parse_item(info, t0)->Some_0.1
+        &&& (res->Ok_0 is None) == (content_count(d.content) == 0)
+        &&& res->Ok_0 is Some ==> res->Ok_0->Some_0 is Item && item_is(*res->Ok_0->Some_0->Item_0, id, d)
+    }
+}
+
+/// the token clause of the whole `decode_block`: an Info token that is neither GC (0) nor Skip (10), then an item
+pub open spec fn block_ok(id: ID, t0: Seq<Tok>, res: Result<Option<Block>, Error>, t1: Seq<Tok>) -> bool {
+    rd_info(t0) is Some && rd_info(t0)->Some_0.0 != 0 && rd_info(t0)->Some_0.0 != 10
+        ==> item_ok(id, rd_info(t0)->Some_0.0, rd_info(t0)->Some_0.1, res, t1)
+}
+
+
+/// a successful var-int read consumed at least one byte; a failed one only a prefix (text of units/upd_dec/unit.rs)
+pub proof fn lemma_var_progress<T: VarInt>(s0: Seq<u8>)
+    ensures
+        forall|s1: Seq<u8>, res: Result<T, Error>| #[trigger] read_post(s0, s1, res, T::dec(s0)) ==> suffix_of(s0, s1) && (res is Ok ==> s1.len() < s0.len()),
+{
+    T::law_dec_bounded(s0);
+    lemma_suffix_skip(s0, 0);
+    if T::dec(s0) is Some {
+        lemma_suffix_skip(s0, T::dec(s0)->Some_0.1);
+    }
 }
 
 /// consuming a prefix of what is left after consuming a prefix (text of units/dec_comp/env.rs)
@@ -1579,10 +1723,10 @@ impl ItemContent {
             // unknown_ref_is_error
             !known_content_ref(ref_num & 0x0f) ==> res is Err && res->Err_0 is UnexpectedValue
                 && final(decoder).rest() == old(decoder).rest() && final(decoder).toks() == old(decoder).toks(),
-            // the variant is the one the tag names, whatever the tokens
+            // the variant is the one the tag names, whatever the tokens; element counts are the u32 read from the wire
             res is Ok ==> content_ref_of(res->Ok_0) == ref_num & 0x0f,
-            // (R)
-            content_round_trip(ref_num, old(decoder).toks(), res, final(decoder).toks()),
+            res is Ok ==> content_elems(res->Ok_0) <= u32::MAX,
+            // (R) = (V) + unit header's `lemma_parse_content`: `theorem_content_round_trip` below
     @start
         let ghost s0 = decoder.rest();
         let ghost t0 = decoder.toks();
@@ -1606,17 +1750,17 @@ impl ItemContent {
             decoder.wf(),
             suffix_of(s0, s1),
             suffix_of(s1, decoder.rest()),
-            it.snapshot@.remaining().len() == len,
-            0 <= it.index@ <= len,
             buf@.len() == it.index@,
             D::v1() ==> decoder.rest().len() + buf@.len() <= s1.len(),
-            strs_inv(ta, len as nat, strs_view(buf@), decoder.toks(), it.index@ as nat),
+            it.index@ <= len ==> strs_inv(ta, len as nat, strs_view(buf@), decoder.toks(), it.index@ as nat),
     @loopstart 1
         let ghost b0 = buf@;
         let ghost sa = decoder.rest();
         proof {
             lemma_suffix_all();
-            lemma_strs_step(ta, len as nat, strs_view(b0), decoder.toks(), it.index@ as nat);
+            if it.index@ < len {
+                lemma_strs_step(ta, len as nat, strs_view(b0), decoder.toks(), it.index@ as nat);
+            }
         }
     @loopend 1
         proof {
@@ -1626,7 +1770,9 @@ impl ItemContent {
     @afterloop 1
         proof {
             lemma_suffix_all();
-            lemma_strs_done(ta, len as nat, strs_view(buf@), decoder.toks());
+            if buf@.len() == len {
+                lemma_strs_done(ta, len as nat, strs_view(buf@), decoder.toks());
+            }
         }
     @after 2 `stmt:let len`
         let ghost s1 = decoder.rest();
@@ -1644,23 +1790,372 @@ impl ItemContent {
             decoder.wf(),
             suffix_of(s0, s1),
             suffix_of(s1, decoder.rest()),
-            0 <= i <= len,
+            i <= len,
             values@.len() == i,
             len <= u32::MAX,
             decoder.rest().len() + values@.len() <= s1.len(),
-            anys_inv(ta, len as nat, values@, decoder.toks(), i as nat),
+            i <= len ==> anys_inv(ta, len as nat, values@, decoder.toks(), i as nat),
         decreases len - i,
     @loopstart 2
         let ghost v0 = values@;
         proof {
             lemma_suffix_all();
-            lemma_anys_step(ta, len as nat, v0, decoder.toks(), i as nat);
+            if i < len {
+                lemma_anys_step(ta, len as nat, v0, decoder.toks(), i as nat);
+            }
         }
     @afterloop 2
         proof {
             lemma_suffix_all();
+            if values@.len() == len {
+                lemma_anys_done(ta, len as nat, values@, decoder.toks());
+            }
+        }
+    @*/
+}
+
+// ---- the four block arms of ItemContent::decode, lifted on their own (R18) -----------------------------------------------------
+
+// the JSON arm behind `let len = decoder.read_len()?;` with `len` as a PARAMETER: the count/loop agreement is a clause of its own
+/*@extract yrs/src/block.rs | impl ItemContent | region decode | stmt=after:stmt:let len | stmtnth=1 | toend=1 | label=content_decode_json
+@header
+    fn content_decode_json<D: Decoder>(decoder: &mut D, len: u32) -> (res: Result<ItemContent, Error>)
+@sig
+    requires
+        old(decoder).wf(),
+    ensures
+        final(decoder).wf(),
+        suffix_of(old(decoder).rest(), final(decoder).rest()),
+        // json_exactly_len (the clause repaired by 492046c, F40): EXACTLY `len` strings -- not one more, not one fewer
+        res is Ok ==> res->Ok_0 is JSON && res->Ok_0->JSON_0@.len() == len,
+        // v1: every string took at least its length prefix (O-CC-2: not so for column decoders)
+        D::v1() && res is Ok ==> len <= consumed(old(decoder).rest(), final(decoder).rest()),
+        // exactly `len` String tokens are consumed, and they are the value
+        rd_strings(old(decoder).toks(), len as nat) is Some ==> (res is Err && alloc_refused()) || (res is Ok
+            && strs_view(res->Ok_0->JSON_0@) == rd_strings(old(decoder).toks(), len as nat)->Some_0.0
+            && final(decoder).toks() == rd_strings(old(decoder).toks(), len as nat)->Some_0.1),
+@start
+    let ghost s0 = decoder.rest();
+    let ghost ta = decoder.toks();
+    proof {
+        lemma_suffix_all();
+        lemma_strs_start(ta, len as nat);
+    }
+@loop 1 iter=it
+    invariant
+        s0 == old(decoder).rest(),
+        ta == old(decoder).toks(),
+        decoder.wf(),
+        suffix_of(s0, decoder.rest()),
+        buf@.len() == it.index@,
+        D::v1() ==> decoder.rest().len() + buf@.len() <= s0.len(),
+        it.index@ <= len ==> strs_inv(ta, len as nat, strs_view(buf@), decoder.toks(), it.index@ as nat),
+@loopstart 1
+    let ghost b0 = buf@;
+    proof {
+        lemma_suffix_all();
+        if it.index@ < len {
+            lemma_strs_step(ta, len as nat, strs_view(b0), decoder.toks(), it.index@ as nat);
+        }
+    }
+@loopend 1
+    proof {
+        lemma_strs_view_push(b0, buf@.last());
+        assert(buf@ == b0.push(buf@.last()));
+    }
+@afterloop 1
+    proof {
+        if buf@.len() == len {
+            lemma_strs_done(ta, len as nat, strs_view(buf@), decoder.toks());
+        }
+    }
+@*/
+
+// the Any arm behind `let len = decoder.read_len()? as usize;`
+/*@extract yrs/src/block.rs | impl ItemContent | region decode | stmt=after:stmt:let len | stmtnth=2 | toend=1 | label=content_decode_any
+@header
+    fn content_decode_any<D: Decoder>(decoder: &mut D, len: usize) -> (res: Result<ItemContent, Error>)
+@sig
+    requires
+        old(decoder).wf(),
+    ensures
+        final(decoder).wf(),
+        suffix_of(old(decoder).rest(), final(decoder).rest()),
+        // any_exactly_len
+        res is Ok ==> res->Ok_0 is Any && res->Ok_0->Any_0@.len() == len,
+        // every value took at least its tag byte, in every decoder
+        res is Ok ==> len <= consumed(old(decoder).rest(), final(decoder).rest()),
+        rd_anys(old(decoder).toks(), len as nat) is Some ==> (res is Err && alloc_refused()) || (res is Ok
+            && res->Ok_0->Any_0@ == rd_anys(old(decoder).toks(), len as nat)->Some_0.0
+            && final(decoder).toks() == rd_anys(old(decoder).toks(), len as nat)->Some_0.1),
+@start
+    let ghost s0 = decoder.rest();
+    let ghost ta = decoder.toks();
+    proof {
+        lemma_suffix_all();
+        lemma_anys_start(ta, len as nat);
+    }
+@loop 1
+    invariant
+        s0 == old(decoder).rest(),
+        ta == old(decoder).toks(),
+        decoder.wf(),
+        suffix_of(s0, decoder.rest()),
+        i <= len,
+        values@.len() == i,
+        decoder.rest().len() + values@.len() <= s0.len(),
+        i <= len ==> anys_inv(ta, len as nat, values@, decoder.toks(), i as nat),
+    decreases len - i,
+@loopstart 1
+    let ghost v0 = values@;
+    proof {
+        lemma_suffix_all();
+        if i < len {
+            lemma_anys_step(ta, len as nat, v0, decoder.toks(), i as nat);
+        }
+    }
+@afterloop 1
+    proof {
+        if values@.len() == len {
             lemma_anys_done(ta, len as nat, values@, decoder.toks());
         }
+    }
+@*/
+
+/*@extract yrs/src/block.rs | impl ItemContent | region decode | arm=BLOCK_ITEM_TYPE_REF_NUMBER => | label=content_decode_type
+@header
+    fn content_decode_type<D: Decoder>(decoder: &mut D) -> (res: Result<ItemContent, Error>)
+@sig
+    requires
+        old(decoder).wf(),
+    ensures
+        final(decoder).wf(),
+        suffix_of(old(decoder).rest(), final(decoder).rest()),
+        D::v1() && res is Ok ==> final(decoder).rest().len() < old(decoder).rest().len(),
+        res is Ok ==> res->Ok_0 is Type,
+        parse_type_ref(old(decoder).toks()) is Some ==> res is Ok
+            && content_is(res->Ok_0, Content::Type(parse_type_ref(old(decoder).toks())->Some_0.0))
+            && final(decoder).toks() == parse_type_ref(old(decoder).toks())->Some_0.1,
+@*/
+
+/*@extract yrs/src/block.rs | impl ItemContent | region decode | arm=BLOCK_ITEM_DOC_REF_NUMBER => | label=content_decode_doc
+@header
+    fn content_decode_doc<D: Decoder>(decoder: &mut D) -> (res: Result<ItemContent, Error>)
+@sig
+    requires
+        old(decoder).wf(),
+    ensures
+        final(decoder).wf(),
+        suffix_of(old(decoder).rest(), final(decoder).rest()),
+        res is Ok ==> final(decoder).rest().len() < old(decoder).rest().len(),
+        res is Ok ==> res->Ok_0 is Doc && res->Ok_0->Doc_0 is None,
+        // guid string, then ONE options value
+        rd_string(old(decoder).toks()) is Some && rd_any(rd_string(old(decoder).toks())->Some_0.1) is Some ==> res is Ok
+            && res->Ok_0->Doc_1.options().guid@ == rd_string(old(decoder).toks())->Some_0.0
+            && final(decoder).toks() == rd_any(rd_string(old(decoder).toks())->Some_0.1)->Some_0.1,
+@*/
+
+// ---- Item::new and Update::decode_block ---------------------------------------------------------------------------------------
+
+impl ID {
+    /*@extract yrs/src/block.rs | impl ID | fn new | label=ID.new
+    @ret r
+    @sig
+        ensures r.client == client, r.clock == clock,
+    @*/
+}
+
+impl BlockRange {
+    /*@extract yrs/src/block.rs | impl BlockRange | fn new | label=BlockRange.new
+    @ret r
+    @sig
+        ensures r.client == id.client, r.clock == id.clock, r.len == len,
+    @*/
+}
+
+impl Item {
+    // the PREFIX of the real `Item::new`: everything up to and including `let mut item = Box::new(Item { .. });` (the guard
+    // `if len == 0 { return None; }` and the construction); the tail that wires the raw back-pointer of a nested type is
+    // EXCLUDED (see the header comment)
+    /*@extract yrs/src/block.rs | impl Item | region new | stmt=stmt:let info | stmtnth=1 | upto=stmt:let item | tail=Some(item) | label=item_new
+    @header
+        pub fn new(id: ID, left: Option<ItemPtr>, origin: Option<ID>, right: Option<ItemPtr>, right_origin: Option<ID>, parent: TypePtr, parent_sub: Option<ArcStr>, content: ItemContent) -> (r: Option<Box<Item>>)
+    @sig
+        ensures
+            // none_iff_empty
+            (r is None) == (ic_len(content, OffsetKind::Utf16) == 0),
+            r is Some ==> {
+                let it = *r->Some_0;
+                &&& it.id == id
+                &&& it.len == ic_len(content, OffsetKind::Utf16)
+                &&& it.len >= 1
+                &&& it.left == left
+                &&& it.right == right
+                &&& it.origin == origin
+                &&& it.right_origin == right_origin
+                &&& it.content == content
+                &&& it.parent == parent
+                &&& it.parent_sub == parent_sub
+                &&& it.redone is None
+                &&& it.info.0 == (if ic_countable(content) { ITEM_FLAG_COUNTABLE } else { 0u16 })
+            },
+    @*/
+}
+
+// the `info =>` arm of the real `Update::decode_block`
+/*@extract yrs/src/update.rs | impl Update | region decode_block | arm=info => | label=decode_block_item
+@header
+    fn decode_block_item<D: Decoder>(id: ID, decoder: &mut D, info: u8) -> (res: Result<Option<Block>, Error>)
+@sig
+    requires
+        old(decoder).wf(),
+    ensures
+        final(decoder).wf(),
+        suffix_of(old(decoder).rest(), final(decoder).rest()),
+        // (U) the clause unit upd_dec assumes for its bodiless `decode_block`, same text
+        res is Ok && res->Ok_0 is Some ==> block_of(res->Ok_0->Some_0, id),
+        res is Ok && res->Ok_0 is Some ==> res->Ok_0->Some_0 is Item,
+        // (V)
+        item_ok(id, info, old(decoder).toks(), res, final(decoder).toks()),
+@start
+    let ghost s0 = decoder.rest();
+    let ghost t0 = decoder.toks();
+    proof { lemma_suffix_all(); }
+@before 1 `stmt:let item`
+    proof {
+        if parse_item(info, t0) is Some && content_is(content, parse_item(info, t0)->Some_0.0.content) {
+            lemma_content_count(content, parse_item(info, t0)->Some_0.0.content);
+        }
+    }
+@*/
+
+// the WHOLE real `Update::decode_block` against EXACTLY the contract of unit upd_dec's bodiless declaration (first four
+// clauses, same text; `Self::v1()` is spelled `D::v1()` in a free function) + the token clause
+/*@extract yrs/src/update.rs | impl Update | fn decode_block | label=decode_block
+@ret res
+@sig
+    requires
+        old(decoder).wf(),
+    ensures
+        final(decoder).wf(),
+        suffix_of(old(decoder).rest(), final(decoder).rest()),
+        D::v1() && res is Ok ==> final(decoder).rest().len() < old(decoder).rest().len(),
+        res is Ok && res->Ok_0 is Some ==> block_of(res->Ok_0->Some_0, id),
+        block_ok(id, old(decoder).toks(), res, final(decoder).toks()),
+@start
+    let ghost s0 = decoder.rest();
+    let ghost t0 = decoder.toks();
+    proof {
+        lemma_suffix_all();
+    }
+@after 1 `stmt:let info`
+    proof {
+        // the Skip arm reads its length with the generic `Read::read_var::<u32>` (byte level only)
+        lemma_var_progress::<u32>(decoder.rest());
+    }
+@before 1 `stmt:let item`
+    proof {
+        if parse_item(info, rd_info(t0)->Some_0.1) is Some && content_is(content, parse_item(info, rd_info(t0)->Some_0.1)->Some_0.0.content) {
+            lemma_content_count(content, parse_item(info, rd_info(t0)->Some_0.1)->Some_0.0.content);
+        }
+    }
+@*/
+
+// ---------------------------------------------------------------------------------------------
+// DecoderV1 (yrs/src/updates/decoder.rs): the REAL bodies of the column reads that only decode_block's item arm uses, verified
+// against the BYTE-LEVEL clauses (B) of `Decoder` for a v1 decoder (wf, suffix_of, PROGRESS).  `trait V1Reads` repeats those
+// clauses with `v1()` == true; the remaining v1 bodies are proved elsewhere against the same clauses: read_info / read_len
+// (unit upd_dec), read_string / read_buf (units dec_comp / lib0), read_any = Any::decode (unit dec_comp); read_key is
+// `self.read_string()?.into()`, read_json `Any::from_json(self.read_string()?)` (serde: not ingestible).
+// ---------------------------------------------------------------------------------------------
+/*@extract yrs/src/updates/decoder.rs | - | struct DecoderV1 | rules=SUB(from=cursor: Cursor<'a>;;to=pub cursor: Cursor<'a>) @*/
+
+impl<'a> Read for DecoderV1<'a> {
+    open spec fn rest(&self) -> Seq<u8> {
+        self.cursor.rest()
+    }
+
+    open spec fn wf(&self) -> bool {
+        self.cursor.wf()
+    }
+
+    /*@extract yrs/src/updates/decoder.rs | impl<'a> Read for DecoderV1<'a> | fn read_u8 | label=decoder_v1_read_u8 @*/
+
+    /*@extract yrs/src/updates/decoder.rs | impl<'a> Read for DecoderV1<'a> | fn read_exact | label=decoder_v1_read_exact @*/
+}
+
+impl<'a> DecoderV1<'a> {
+    // two var-ints: the client (range-checked: `ClientID::decode`) and the clock -- at least two bytes
+    /*@extract yrs/src/updates/decoder.rs | impl<'a> DecoderV1<'a> | fn read_id | label=decoder_v1_read_id
+    @ret res
+    @sig
+        requires
+            old(self).wf(),
+        ensures
+            final(self).wf(),
+            suffix_of(old(self).rest(), final(self).rest()),
+            res is Ok ==> final(self).rest().len() + 2 <= old(self).rest().len(),
+    @start
+        proof {
+            lemma_suffix_all();
+            lemma_var_progress::<u64>(self.rest());
+        }
+    @before 1 `stmt:let clock`
+        proof { lemma_var_progress::<u32>(self.rest()); }
+    @*/
+}
+
+pub trait V1Reads: Read {
+    fn read_left_id(&mut self) -> (res: Result<ID, Error>)
+        requires
+            old(self).wf(),
+        ensures
+            final(self).wf(),
+            suffix_of(old(self).rest(), final(self).rest()),
+            res is Ok ==> final(self).rest().len() < old(self).rest().len(),
+    ;
+
+    fn read_right_id(&mut self) -> (res: Result<ID, Error>)
+        requires
+            old(self).wf(),
+        ensures
+            final(self).wf(),
+            suffix_of(old(self).rest(), final(self).rest()),
+            res is Ok ==> final(self).rest().len() < old(self).rest().len(),
+    ;
+
+    fn read_parent_info(&mut self) -> (res: Result<bool, Error>)
+        requires
+            old(self).wf(),
+        ensures
+            final(self).wf(),
+            suffix_of(old(self).rest(), final(self).rest()),
+            res is Ok ==> final(self).rest().len() < old(self).rest().len(),
+    ;
+
+    fn read_type_ref(&mut self) -> (res: Result<u8, Error>)
+        requires
+            old(self).wf(),
+        ensures
+            final(self).wf(),
+            suffix_of(old(self).rest(), final(self).rest()),
+            res is Ok ==> final(self).rest().len() < old(self).rest().len(),
+    ;
+}
+
+impl<'a> V1Reads for DecoderV1<'a> {
+    /*@extract yrs/src/updates/decoder.rs | impl<'a> Decoder for DecoderV1<'a> | fn read_left_id | label=decoder_v1_read_left_id @*/
+
+    /*@extract yrs/src/updates/decoder.rs | impl<'a> Decoder for DecoderV1<'a> | fn read_right_id | label=decoder_v1_read_right_id @*/
+
+    /*@extract yrs/src/updates/decoder.rs | impl<'a> Decoder for DecoderV1<'a> | fn read_parent_info | label=decoder_v1_read_parent_info
+    @start
+        proof { lemma_var_progress::<u32>(self.rest()); }
+    @*/
+
+    /*@extract yrs/src/updates/decoder.rs | impl<'a> Decoder for DecoderV1<'a> | fn read_type_ref | label=decoder_v1_read_type_ref
+    @start
+        proof { lemma_suffix_skip(self.rest(), 0); if self.rest().len() >= 1 { lemma_suffix_skip(self.rest(), 1); } }
     @*/
 }
 
